@@ -100,6 +100,13 @@ func opGroupAndMeta(r *rand.Rand, scenarios int) {
 				if r.Intn(12) == 0 {
 					part.Err = 9
 				}
+				if r.Intn(6) == 0 { // a replica on a broker that is offline: the metadata lists only live brokers
+					part.Replicas = append(part.Replicas, 7+int32(r.Intn(2)))
+				}
+				if r.Intn(10) == 0 { // no leader at the moment / the leader is the offline broker
+					part.Leader = []int32{-1, 7}[r.Intn(2)]
+					part.Err = 5
+				}
 				t.Parts[p] = part
 			}
 			c.Topics[n] = t
